@@ -286,6 +286,10 @@ def images_case(desc):
         plants.append(("image[%s].size" % img.path, ) + _swap(img, "size", "12"))
         plants.append(("image[%s].type" % img.path, ) + _swap(img, "type", "floppy"))
         plants.append(("image[%s].checksums" % img.path, ) + _swap(img, "checksums", {}))
+    # keys of several types in one mapping: each key can be written, the mapping cannot be sorted
+    for img in imgs[:2]:
+        plants.append(("image[%s].checksums[256] next to string keys" % img.path, ) + _swap_item(img.checksums, 256, "ab"))
+    plants.append(("images[None] next to named variants", ) + _swap_item(obj.images, None, {}))
     for img in imgs[:3]:
         plants.append(("image[%s].checksums[md5]=unwritable" % img.path, ) + _swap_item(img.checksums, "md5", UNWRITABLE))
         plants.append(("image[%s].volume_id=unencodable" % img.path, ) + _swap(img, "volume_id", UNENCODABLE))
@@ -312,6 +316,9 @@ def _manifest_case(kind, cls, build):
     payload = getattr(obj, kind)
     if isinstance(payload, dict):
         plants.append(("payload[zzz]=unwritable", ) + _swap_item(payload, "zzz", UNWRITABLE))
+        # keys of several types in one mapping (a variant called None or 5 next to named ones): each can be written, the mapping cannot be sorted
+        plants.append(("payload[None] next to named variants", ) + _swap_item(payload, None, {}))
+        plants.append(("payload[5] next to named variants", ) + _swap_item(payload, 5, {}))
         plants.append(("payload[zzz]=unencodable", ) + _swap_item(payload, "zzz", {"path": "Packages/" + UNENCODABLE + "-1.0-1.x86_64.rpm"}))
         for variant in sorted(payload)[:1]:
             if isinstance(payload[variant], dict):
